@@ -11,7 +11,7 @@ package memefish
 // Vocabulary
 //
 // TokOK: the current token lies inside the buffer and ends where the lexer stands.
-// @ spec TokOK(l) = 0 <= l.Token.Pos && l.Token.Pos <= l.Token.End && l.Token.End == l.pos && (l.Token.Kind == "<eof>" ==> l.Token.Pos == len(l.Buffer)) && (l.Token.Kind == ">>" ==> l.Token.End == l.Token.Pos + 2) && (l.Token.Kind != ">" ==> len(l.Token.Raw) == l.Token.End - l.Token.Pos)
+// @ spec TokOK(l) = 0 <= l.Token.Pos && l.Token.Pos <= l.Token.End && l.Token.End == l.pos && (l.Token.Kind == "<eof>" ==> l.Token.Pos == len(l.Buffer)) && (l.Token.Kind == ">>" ==> l.Token.End == l.Token.Pos + 2) && (l.Token.Kind != ">" ==> len(l.Token.Raw) == l.Token.End - l.Token.Pos) && (!literalKind(l.Token.Kind) ==> l.Token.End - l.Token.Pos == len(l.Token.Kind)) && (l.Token.Kind == "<param>" ==> len(l.Token.AsString) == l.Token.End - l.Token.Pos - 1)
 // a token that is neither <eof> nor <bad> nor the zero token is not empty (this is what makes the parser advance)
 // @ spec nonEmptyTok(l) = l.Token.Kind == "<eof>" || l.Token.Kind == "" || l.Token.Pos < l.Token.End || (l.Token.Kind == "<bad>" && l.Token.Pos == len(l.Buffer))
 // @ spec ParserInv0(p) = p != nil && p.Lexer != nil && LexInv(p.Lexer) && TokOK(p.Lexer) && nonEmptyTok(p.Lexer)
@@ -29,46 +29,61 @@ package memefish
 // @   props C03 C09
 // @   requires ParserInv(p)
 // @   requires[C04] wfargs: wfArgs()
+// @   requires[C05] argpos: argsWithin()
 // @   ensures ParserInv(p)
 // @   ensures (p.Lexer == old(p.Lexer) || fresh(p.Lexer)) && p.Lexer.File == old(p.Lexer.File)
 // @   ensures p.Lexer.Token.Pos >= old(p.Lexer.Token.Pos)
 // @   ensures[C09] errs: len(p.errors) >= old(len(p.errors))
 // @   ensures[C04] nonnil: notNil(result)
 // @   ensures[C04] wf: wf(result)
+// @   ensures[C05] pf: pf(result)
+// @   ensures[C05] range: within(result, lowerBound(), p.Lexer.Token.Pos)
 // @   panics when true
 // @   modifies p.Lexer, p.errors, cur(p.Lexer).pos, cur(p.Lexer).Token.*, cur(p.Lexer).lastTokenKind, cur(p.Lexer).dotIdent, p.Lexer.File.lines
-// @   loop * invariant ParserInv(p) && (p.Lexer == old(p.Lexer) || fresh(p.Lexer)) && p.Lexer.File == old(p.Lexer.File) && p.Lexer.Token.Pos >= old(p.Lexer.Token.Pos) && len(p.errors) >= old(len(p.errors)) && wfLocals()
+// @   loop * invariant ParserInv(p) && (p.Lexer == old(p.Lexer) || fresh(p.Lexer)) && p.Lexer.File == old(p.Lexer.File) && p.Lexer.Token.Pos >= old(p.Lexer.Token.Pos) && len(p.errors) >= old(len(p.errors))
+// @   loop * invariant[C04] wfl: wfLocals()
+// @   loop * invariant[C05] pfl: pfLocals()
 // @   loop * decreases len(p.Lexer.Buffer) - p.Lexer.Token.Pos
 
 // @ schema parser memefish\.\(\*Parser\)\.parse\w+ except memefish\.\(\*Parser\)\.(parseTableNameSuffix|parsePathTableExprSuffix|parseUnnestSuffix)
 // @   props C03 C09
 // @   requires ParserInv(p)
 // @   requires[C04] wfargs: wfArgs()
+// @   requires[C05] argpos: argsWithin()
 // @   ensures ParserInv(p)
 // @   ensures (p.Lexer == old(p.Lexer) || fresh(p.Lexer)) && p.Lexer.File == old(p.Lexer.File)
 // @   ensures p.Lexer.Token.Pos >= old(p.Lexer.Token.Pos)
 // @   ensures[C09] errs: len(p.errors) >= old(len(p.errors))
 // @   ensures[C04] nonnil: notNil(result)
 // @   ensures[C04] wf: wf(result)
+// @   ensures[C05] pf: pf(result)
+// @   ensures[C05] range: within(result, lowerBound(), p.Lexer.Token.Pos)
 // @   ensures[C03] progress: len(p.errors) == old(len(p.errors)) ==> p.Lexer.Token.Pos > old(p.Lexer.Token.Pos)
 // @   ensures[C18,C05] freshres: freshRef(result)
 // @   panics when true
 // @   modifies p.Lexer, p.errors, cur(p.Lexer).pos, cur(p.Lexer).Token.*, cur(p.Lexer).lastTokenKind, cur(p.Lexer).dotIdent, p.Lexer.File.lines
-// @   loop * invariant ParserInv(p) && (p.Lexer == old(p.Lexer) || fresh(p.Lexer)) && p.Lexer.File == old(p.Lexer.File) && p.Lexer.Token.Pos >= old(p.Lexer.Token.Pos) && len(p.errors) >= old(len(p.errors)) && wfLocals()
+// @   loop * invariant ParserInv(p) && (p.Lexer == old(p.Lexer) || fresh(p.Lexer)) && p.Lexer.File == old(p.Lexer.File) && p.Lexer.Token.Pos >= old(p.Lexer.Token.Pos) && len(p.errors) >= old(len(p.errors))
+// @   loop * invariant[C04] wfl: wfLocals()
+// @   loop * invariant[C05] pfl: pfLocals()
 // @   loop * decreases len(p.Lexer.Buffer) - p.Lexer.Token.Pos
 
 // @ schema parseropt memefish\.\(\*Parser\)\.tryParse\w+
 // @   props C03 C09
 // @   requires ParserInv(p)
 // @   requires[C04] wfargs: wfArgs()
+// @   requires[C05] argpos: argsWithin()
 // @   ensures ParserInv(p)
 // @   ensures (p.Lexer == old(p.Lexer) || fresh(p.Lexer)) && p.Lexer.File == old(p.Lexer.File)
 // @   ensures p.Lexer.Token.Pos >= old(p.Lexer.Token.Pos)
 // @   ensures[C09] errs: len(p.errors) >= old(len(p.errors))
 // @   ensures[C04] wf: wf(result)
+// @   ensures[C05] pf: pf(result)
+// @   ensures[C05] range: within(result, lowerBound(), p.Lexer.Token.Pos)
 // @   panics when true
 // @   modifies p.Lexer, p.errors, cur(p.Lexer).pos, cur(p.Lexer).Token.*, cur(p.Lexer).lastTokenKind, cur(p.Lexer).dotIdent, p.Lexer.File.lines
-// @   loop * invariant ParserInv(p) && (p.Lexer == old(p.Lexer) || fresh(p.Lexer)) && p.Lexer.File == old(p.Lexer.File) && p.Lexer.Token.Pos >= old(p.Lexer.Token.Pos) && len(p.errors) >= old(len(p.errors)) && wfLocals()
+// @   loop * invariant ParserInv(p) && (p.Lexer == old(p.Lexer) || fresh(p.Lexer)) && p.Lexer.File == old(p.Lexer.File) && p.Lexer.Token.Pos >= old(p.Lexer.Token.Pos) && len(p.errors) >= old(len(p.errors))
+// @   loop * invariant[C04] wfl: wfLocals()
+// @   loop * invariant[C05] pfl: pfLocals()
 // @   loop * decreases len(p.Lexer.Buffer) - p.Lexer.Token.Pos
 
 // Lookahead: the parser state is restored exactly (the lexer object may be a fresh copy); no error
@@ -77,6 +92,7 @@ package memefish
 // @   props C03 C09
 // @   requires ParserInv(p)
 // @   requires[C04] wfargs: wfArgs()
+// @   requires[C05] argpos: argsWithin()
 // @   ensures ParserInv(p)
 // @   ensures (p.Lexer == old(p.Lexer) || fresh(p.Lexer)) && p.Lexer.File == old(p.Lexer.File)
 // @   ensures[C09] restored: p.Lexer.pos == old(p.Lexer.pos) && p.Lexer.Token == old(p.Lexer.Token) && p.Lexer.lastTokenKind == old(p.Lexer.lastTokenKind) && p.Lexer.dotIdent == old(p.Lexer.dotIdent)
@@ -152,6 +168,7 @@ package memefish
 // @   ensures result != nil && fresh(result) && result.Kind == old(p.Lexer.Token.Kind) && old(p.Lexer.Token.Kind) == kind && result.Pos == old(p.Lexer.Token.Pos) && result.End == old(p.Lexer.Token.End) && result.Raw == old(p.Lexer.Token.Raw) && result.AsString == old(p.Lexer.Token.AsString)
 // @   ensures p.Lexer.Token.Pos >= result.End && p.Lexer.Token.Kind != "<bad>" && result.Pos <= result.End && p.Lexer.File == old(p.Lexer.File)
 // @   ensures[C03] progress: kind != "<eof>" && kind != "<bad>" && kind != "" ==> result.Pos < result.End && p.Lexer.Token.Pos > old(p.Lexer.Token.Pos)
+// @   ensures[C05,C06] kwlen: (!literalKind(kind) ==> result.End - result.Pos == len(kind)) && (kind == "<param>" ==> len(result.AsString) == result.End - result.Pos - 1) && 0 <= result.Pos
 // @   ensures p.errors == old(p.errors)
 // @   panics when true
 // @   modifies cur(p.Lexer).pos, cur(p.Lexer).Token.*, cur(p.Lexer).lastTokenKind, cur(p.Lexer).dotIdent, p.Lexer.File.lines
@@ -172,6 +189,7 @@ package memefish
 // @   ensures ParserInv(p) && p.Lexer == old(p.Lexer)
 // @   ensures result != nil && fresh(result) && result.Kind == "<ident>" && result.Pos == old(p.Lexer.Token.Pos) && result.End == old(p.Lexer.Token.End) && result.Pos < result.End
 // @   ensures p.Lexer.Token.Pos >= result.End && p.Lexer.Token.Pos > old(p.Lexer.Token.Pos) && p.Lexer.File == old(p.Lexer.File)
+// @   ensures[C05,C06] kwlen: result.End - result.Pos == len(s) && 0 <= result.Pos
 // @   ensures p.errors == old(p.errors)
 // @   panics when true
 // @   modifies cur(p.Lexer).pos, cur(p.Lexer).Token.*, cur(p.Lexer).lastTokenKind, cur(p.Lexer).dotIdent, p.Lexer.File.lines
@@ -206,26 +224,32 @@ package memefish
 // @   ensures[C09] recorded: len(p.errors) == old(len(p.errors)) + 1
 // @   ensures[C04] nonnil: notNil(result)
 // @   ensures[C04] wf: wf(result)
+// @   ensures[C05] pf: pf(result)
+// @   ensures[C05] range: within(result, old(l.Token.Pos), p.Lexer.Token.Pos)
 // @   panics never
 // @   modifies p.errors, p.Lexer, l.pos, l.Token.*, l.lastTokenKind, l.dotIdent, l.File.lines
 
 // @ func memefish.(*Parser).handleParseStatementError
 // @   inherit handler
+// @   loop 0 invariant[C05,C10] span: pos == old(l.Token.Pos) && pos <= end && end <= l.Token.Pos
 // @   loop 0 invariant p.Lexer == l && ParserInv(p) && l.File == old(l.File) && l.Token.Pos >= old(l.Token.Pos) && len(p.errors) == old(len(p.errors)) + 1
 // @   loop 0 decreases 2 * (len(l.Buffer) - l.pos) + ite(l.Token.Kind == "<eof>", 0, 1)
 
 // @ func memefish.(*Parser).handleParseQueryExprError
 // @   inherit handler
+// @   loop 0 invariant[C05,C10] span: pos == old(l.Token.Pos) && pos <= end && end <= l.Token.Pos
 // @   loop 0 invariant p.Lexer == l && ParserInv(p) && l.File == old(l.File) && l.Token.Pos >= old(l.Token.Pos) && len(p.errors) == old(len(p.errors)) + 1
 // @   loop 0 decreases 2 * (len(l.Buffer) - l.pos) + ite(l.Token.Kind == "<eof>", 0, 1)
 
 // @ func memefish.(*Parser).handleParseExprError
 // @   inherit handler
+// @   loop 0 invariant[C05,C10] span: pos == old(l.Token.Pos) && pos <= end && end <= l.Token.Pos
 // @   loop 0 invariant p.Lexer == l && ParserInv(p) && l.File == old(l.File) && l.Token.Pos >= old(l.Token.Pos) && len(p.errors) == old(len(p.errors)) + 1
 // @   loop 0 decreases 2 * (len(l.Buffer) - l.pos) + ite(l.Token.Kind == "<eof>", 0, 1)
 
 // @ func memefish.(*Parser).handleParseTypeError
 // @   inherit handler
+// @   loop 0 invariant[C05,C10] span: pos == old(l.Token.Pos) && pos <= end && end <= l.Token.Pos
 // @   loop 0 invariant p.Lexer == l && ParserInv(p) && l.File == old(l.File) && l.Token.Pos >= old(l.Token.Pos) && len(p.errors) == old(len(p.errors)) + 1
 // @   loop 0 decreases 2 * (len(l.Buffer) - l.pos) + ite(l.Token.Kind == "<eof>", 0, 1)
 
@@ -280,9 +304,13 @@ package memefish
 // @   ensures[C09] errs: len(p.errors) >= old(len(p.errors))
 // @   ensures len(result) >= 1
 // @   ensures[C04] wf: wf(result)
+// @   ensures[C05] pf: pf(result)
+// @   ensures[C05] range: within(result, old(p.Lexer.Token.Pos), p.Lexer.Token.Pos)
+// @   ensures[C05] pf: pf(result)
+// @   ensures[C05] range: within(result, lowerBound(), p.Lexer.Token.Pos)
 // @   panics when true
 // @   modifies p.Lexer, p.errors, cur(p.Lexer).pos, cur(p.Lexer).Token.*, cur(p.Lexer).lastTokenKind, cur(p.Lexer).dotIdent, p.Lexer.File.lines
-// @   loop 0 invariant ParserInv(p) && (p.Lexer == old(p.Lexer) || fresh(p.Lexer)) && p.Lexer.File == old(p.Lexer.File) && p.Lexer.Token.Pos >= old(p.Lexer.Token.Pos) && len(p.errors) >= old(len(p.errors)) && len(nodes) >= 1 && wf(nodes)
+// @   loop 0 invariant ParserInv(p) && (p.Lexer == old(p.Lexer) || fresh(p.Lexer)) && p.Lexer.File == old(p.Lexer.File) && p.Lexer.Token.Pos >= old(p.Lexer.Token.Pos) && len(p.errors) >= old(len(p.errors)) && len(nodes) >= 1 && wf(nodes) && pf(nodes) && within(nodes, old(p.Lexer.Token.Pos), p.Lexer.Token.Pos)
 // @   loop 0 decreases len(p.Lexer.Buffer) - p.Lexer.Token.Pos
 
 // @ func memefish.parseStatements
@@ -292,6 +320,8 @@ package memefish
 // @   ensures ParserInv(p) && (p.Lexer == old(p.Lexer) || fresh(p.Lexer)) && p.Lexer.File == old(p.Lexer.File)
 // @   ensures[C09] errs: len(p.errors) >= old(len(p.errors))
 // @   ensures[C04] wf: wf(result)
+// @   ensures[C05] pf: pf(result)
+// @   ensures[C05] range: within(result, lowerBound(), p.Lexer.Token.Pos)
 // @   panics never
 // @   modifies p.Lexer, p.errors, cur(p.Lexer).pos, cur(p.Lexer).Token.*, cur(p.Lexer).lastTokenKind, cur(p.Lexer).dotIdent, p.Lexer.File.lines
 // @   loop 0 invariant ParserInv(p) && (p.Lexer == old(p.Lexer) || fresh(p.Lexer)) && p.Lexer.File == old(p.Lexer.File) && len(p.errors) >= old(len(p.errors)) && wf(nodes)
@@ -302,12 +332,15 @@ package memefish
 // @   props C03 C09
 // @   requires ParserInv(p)
 // @   requires[C04] wfargs: wfArgs()
+// @   requires[C05] argpos: argsWithin()
 // @   ensures ParserInv(p)
 // @   ensures (p.Lexer == old(p.Lexer) || fresh(p.Lexer)) && p.Lexer.File == old(p.Lexer.File)
 // @   ensures p.Lexer.Token.Pos >= old(p.Lexer.Token.Pos)
 // @   ensures[C09] errs: len(p.errors) >= old(len(p.errors))
 // @   ensures[C04] nonnil: notNil(result)
 // @   ensures[C04] wf: wf(result)
+// @   ensures[C05] pf: pf(result)
+// @   ensures[C05] range: within(result, lowerBound(), p.Lexer.Token.Pos)
 // @   panics never
 // @   modifies p.Lexer, p.errors, cur(p.Lexer).pos, cur(p.Lexer).Token.*, cur(p.Lexer).lastTokenKind, cur(p.Lexer).dotIdent, p.Lexer.File.lines
 
@@ -367,7 +400,8 @@ package memefish
 // @   loop 0 invariant chainInv(p, expr, old(len(p.errors)), old(p.Lexer.Token.Pos)) && freshRef(expr)
 // @ func memefish.(*Parser).parseIdentOrPath
 // @   inherit parser
-// @   loop 0 invariant len(p.errors) == old(len(p.errors)) ==> p.Lexer.Token.Pos > old(p.Lexer.Token.Pos)
+// @   ensures len(result) >= 1
+// @   loop 0 invariant len(ids) >= 1 && (len(p.errors) == old(len(p.errors)) ==> p.Lexer.Token.Pos > old(p.Lexer.Token.Pos))
 
 // @ func memefish.(*Parser).lookaheadSimpleType
 // @   inherit lookahead
@@ -376,9 +410,15 @@ package memefish
 
 // Pos()/End() of nodes: verified against the documentation by the catalog engine (C19); here they
 // are pure functions of the node.
-// @ schema astpos ast\.\(\*\w+\)\.(Pos|End)
+// @ schema astposP ast\.\(\*\w+\)\.Pos
 // @   trusted
 // @   requires recv != nil
+// @   ensures result == $pos(recv)
+// @   modifies nothing
+// @ schema astposE ast\.\(\*\w+\)\.End
+// @   trusted
+// @   requires recv != nil
+// @   ensures result == $end(recv)
 // @   modifies nothing
 
 // @ func strings.Join
@@ -443,6 +483,8 @@ package memefish
 // @   ensures[C09] errs: len(p.errors) >= old(len(p.errors))
 // @   ensures[C04] nonnil: notNil(result)
 // @   ensures[C04] wf: wf(result)
+// @   ensures[C05] pf: pf(result)
+// @   ensures[C05] range: within(result, lowerBound(), p.Lexer.Token.Pos)
 // @   ensures result == e || freshRef(result)
 // @   panics when true
 // @   modifies p.Lexer, p.errors, cur(p.Lexer).pos, cur(p.Lexer).Token.*, cur(p.Lexer).lastTokenKind, cur(p.Lexer).dotIdent, p.Lexer.File.lines
@@ -461,12 +503,15 @@ package memefish
 // @   props C03 C09
 // @   requires ParserInv(p)
 // @   requires[C04] wfargs: wfArgs()
+// @   requires[C05] argpos: argsWithin()
 // @   ensures ParserInv(p)
 // @   ensures (p.Lexer == old(p.Lexer) || fresh(p.Lexer)) && p.Lexer.File == old(p.Lexer.File)
 // @   ensures p.Lexer.Token.Pos >= old(p.Lexer.Token.Pos)
 // @   ensures[C09] errs: len(p.errors) >= old(len(p.errors))
 // @   ensures[C04] nonnil: notNil(result)
 // @   ensures[C04] wf: wf(result)
+// @   ensures[C05] pf: pf(result)
+// @   ensures[C05] range: within(result, lowerBound(), p.Lexer.Token.Pos)
 // @   ensures[C18,C05] freshres: freshRef(result)
 // @   panics when true
 // @   modifies p.Lexer, p.errors, cur(p.Lexer).pos, cur(p.Lexer).Token.*, cur(p.Lexer).lastTokenKind, cur(p.Lexer).dotIdent, p.Lexer.File.lines
